@@ -1,8 +1,9 @@
 #!/bin/bash
 # usage: tools/all.sh quick|thorough  — runs every claimed check once, one line per check.
+#        ONLY="C01 C07" tools/all.sh thorough  — only the named checks.
 TIER=${1:-quick}
 cd "$(dirname "$0")/.."
-for ID in $(cat checks/ENABLED); do
+for ID in ${ONLY:-$(cat checks/ENABLED)}; do
   s=$(date +%s)
   ./run.sh $ID $TIER > .work/all-$ID.out 2>&1; rc=$?
   out=$(grep -E "^$ID tier|VIOLATION|KNOWN-FINDING|HARNESS|VACUOUS|cap:" .work/all-$ID.out | cut -c1-220)
